@@ -22,6 +22,22 @@ Soundness: a mutant is *invalid* iff its proof root is not a Merkle-proof cell, 
   for the account check iff anything differs from the honest triple (proof, address, claimed state) in a way listed below.
   Invalid mutants must raise.  Mutants that stay valid by this definition are counted ("mutant-still-valid") and not judged.
 
+Kinds of use beyond the stand-alone proof
+  * nested (sub-checks nested-proof, block-header-proof with 'nest'): the proof cell M = MP(T') is a reference of an ordinary cell U
+    (with leaf siblings, any position) that is proven in turn, O = MP(prune(U)), one or two layers deep.  Below M the outer proof
+    prunes at Merkle depth 2 (3): level-2/3 pruned branches next to M's own level-1 ones, so the carried proof cell M' has a
+    non-zero level (child masks 010, 011, 101, 110, 111 ...).  M' still stores, and its child still has, the level-0 hash of T: it is
+    accepted against H(T, 0) both when taken out of the outer proof (O[0][pos]...) and stand-alone, O is accepted against H(U, 0),
+    and the block root taken from a carried block proof passes the header check and yields the committed state hash.  The same
+    mutations are applied below M'.
+  * one bag, several proofs (sub-check bag-of-proofs): the honest proof (or the case's mutant) together with 1..3 variants of it as
+    the roots of ONE bag of cells (any root order, any valid cell order) or as the children of one ordinary cell (bag or builder);
+    every proof cell is judged by itself: the honest one accepted, every invalid one rejected.  The variants are biased towards
+    TWINS - cells with equal data and equal references that differ only in kind: the ordinary twin of the proof cell
+    ('root-ordinary'), the ordinary twin of an exotic cell below it ('unexotic'), the exotic twin of an ordinary cell that has the
+    exact layout of an exotic cell ('exoticise'; such look-alike cells are planted into the tree by case['alike']: ordinary cell
+    with the data of a pruned branch / library cell (0 refs), Merkle proof (1 ref), Merkle update (2 refs) over its own children).
+
 Mutations (generic + header, applied to a cell below the proof root chosen by index): data bit flip (ordinary cells; for exotic
 cells only in their hash/depth fields), drop / swap / duplicate / retarget a reference, substituted stored hash or depth of a
 pruned branch, a flipped bit of the hash stored in the proof root, level-lift of a pruned branch (mask m -> m | 2^j keeping every hash at levels <= j, plus an attacker-chosen lower
@@ -29,7 +45,10 @@ stored hash), proof root turned into an ordinary cell with the same data, expect
 with the stale proof-root data or with the proof root recomputed (self-consistent forgery).
 Account mutants: claimed state = pruned branch carrying the committed hash / the account cell with one child pruned (level-0 hash = committed, own hash not) / another account's cell / one flipped bit;
 address of another account / absent address; the asked account's branch pruned away and "no state" claimed; other block hash; state proof of a different state; header forgery with a forged
-state; wrong number of roots.
+state; wrong number of roots; one of the two roots replaced by the ordinary twin of the proof cell (optionally with the real proof cell kept
+in the bag as a cell no root reaches, right after its twin or as cell 0) or with one bit of its stored hash flipped; any of the generic
+mutations applied to a cell below the block-proof root or the state-proof root, root data kept ('proof-cell-mutation'; in a third of the
+cases the bag stores hashes with every cell and the altered cells carry the honest cells' stored values).
 
 Deliberately NOT asserted
   * rejection of a changed *depth field of the proof root cell itself* (the statement lists hash, data/structure of unpruned
@@ -50,7 +69,11 @@ RULE = ('generic: case = exotic/ordinary DAG spec (normalised to level 0 by wrap
         'indexes), construction route (builder / reference-encoded BoC), optional mutation. header: block-shaped root with 4 '
         'references whose third is a Merkle update over (pruned | full | partly pruned) old and new state trees. account: '
         'hand-encoded ShardStateUnsplit with 1..6 accounts in a HashmapAugE 256, pruned to the path of one account, two-root '
-        'proof BoC. non-trivial = proof with >= 1 pruned branch, or a mutant below the root; distinct = distinct case')
+        'proof BoC. nested: the proof cell as a reference of an ordinary cell that is proven again (1-2 layers, outer pruning '
+        'below the carried proof -> proof cell of level 1..2), checked inside and outside the outer proof; header cases carry the '
+        'block proof the same way in 1 of 4 cases. bag-of-proofs: honest proof + 1..3 variants (ordinary/exotic twins preferred) as '
+        'roots of one bag or children of one cell, each judged by itself; trees may hold ordinary cells with the layout of an '
+        'exotic cell. non-trivial = proof with >= 1 pruned branch, or a mutant below the root; distinct = distinct case')
 ASSUMPTIONS = ['harness/ref/refcell.py (level hashes, create_pruned_branch; validated against the pinned main-net block and by '
                'the model-free pruning relation of C02)', 'harness/ref/refdict.py HashmapAug builder, refbits TL-B writers',
                'sha256 collision freedom (a mutant with a different level-0 hash is a different commitment)']
@@ -595,6 +618,13 @@ def _header_parts(case):
     sel = {nodes[i % len(nodes)].repr_hash() for i in case['prune']}
     sel.discard(B.refs[2].repr_hash())                     # keep the Merkle update itself: it is what the check reads
     Bp = prune(B, sel, 1)
+    if case.get('nest'):
+        # the block proof carried inside another proof: below it the outer proof prunes at level 2 (3); the block root and its
+        # Merkle update (what the check reads) stay
+        O, path = nest(rc.merkle_proof(Bp), case['nest'], keep_fn=lambda M: {M.refs[0].repr_hash(), M.refs[0].refs[2].repr_hash()})
+        Bp = walk(O, path).refs[0]
+        if Bp.H(0) != B.H(0) or Bp.refs[2].type != rc.MUPDATE:
+            raise HarnessError('reference model: the carried block proof no longer commits to the block')
     return B, Bp, new
 
 
@@ -632,10 +662,12 @@ def check_header(case):
             return Fail(f'honest-proof/construction-raises/{exc_sig(lc)}', f'{lc!r}')
         ok, res = call(check_proof, lc, h)
         if not ok:
-            return Fail('honest-proof-rejected/generic-on-block', f'{exc_sig(res)} {res!r}')
+            return Fail('honest-proof-rejected/generic-on-block' + ('/nested' if case.get('nest') else ''),
+                        f'{exc_sig(res)} {res!r}; block root mask {Bp.mask():03b}')
         ok, res = call(check_block_header_proof, lc[0], h, True)
         if not ok:
-            return Fail('honest-proof-rejected/header', f'{exc_sig(res)} {res!r} modes={case["old_mode"]}/{case["new_mode"]}')
+            return Fail('honest-proof-rejected/header', f'{exc_sig(res)} {res!r} modes={case["old_mode"]}/{case["new_mode"]} '
+                        f'block root mask {Bp.mask():03b}')
         if res != committed:
             return Fail(f'header/wrong-state-hash/new-state-{case["new_mode"]}', f'returned {res.hex() if isinstance(res, bytes) else res!r}, '
                         f'block commits to {committed.hex()}')
@@ -680,7 +712,7 @@ def strat_header(tier):
     return st.fixed_dictionaries({
         'info': small, 'vf': small, 'extra': small, 'old': state, 'new': state, 'old_mode': mode, 'new_mode': mode,
         'sel': st.lists(st.integers(0, 31), max_size=3), 'root_bits': dag.st_bits(64), 'prune': st.lists(st.integers(0, 63), max_size=5),
-        'route': st.sampled_from(['builder', 'boc']),
+        'route': st.sampled_from(['builder', 'boc']), 'nest': st.one_of(st.none(), st.none(), st.none(), st_nest()),
         'mut': st.one_of(st.none(), st_mut(), st.fixed_dictionaries({'kind': st.just('forge-state'), 'a': st.integers(0, 255)}),
                          st.fixed_dictionaries({'kind': st.sampled_from(['hash-random', 'hash-flip']), 'a': st.integers(0, 255)}))
     }).filter(lambda c: not (c['mut'] and c['mut']['kind'] in ('root-ordinary', 'root-is-child', 'root-hash-flip')))
@@ -690,6 +722,8 @@ def classify_header(case):
     yield 'honest' if case.get('mut') is None else 'mutant:' + case['mut']['kind']
     yield f'states={case["old_mode"]}/{case["new_mode"]}'
     yield 'route=' + case.get('route', 'builder')
+    if case.get('nest'):
+        yield f'carried-in-an-outer-proof: block-root-mask={_header_parts(case)[1].mask():03b}'
     if case.get('mut') and case['mut']['kind'] in MUT_KINDS:
         B, Bp, new = _header_parts(case)
         X, label = mutate(Bp, case['mut'])
@@ -843,6 +877,7 @@ def check_account(case):
     addr_id = target['id']
     claimed = acc
     honest = False
+    extra_cell = None
     if kind == 'none':
         honest = True
     elif kind == 'claimed-pruned':
@@ -907,6 +942,26 @@ def check_account(case):
             Sp2 = prune(S, {c.repr_hash() for c in rc.topo([S])} - {S.repr_hash(), S.refs[1].repr_hash()}, 1)
         roots = [roots[0], rc.merkle_proof(Sp2)]
         claimed = rc.RCell('', [], False) if kind.endswith('empty') else None
+    elif kind == 'proof-root-ordinary':
+        # one of the two roots is the ORDINARY twin of the proof cell (same data, same child) - "a cell that is not a Merkle proof";
+        # optionally the bag still holds the real proof cell as a cell no root reaches, right after its twin or as cell 0
+        which = mut['a'] % 2
+        orphan = [None, 'after-twin', 'first'][(mut['a'] // 2) % 3]
+        real = roots[which]
+        roots[which] = rc.RCell(real.bits, real.refs, False)
+        if orphan:
+            extra_cell = (real, orphan)
+    elif kind == 'proof-cell-mutation':
+        # any change to the data or structure of a cell BELOW one of the two proof roots (the root keeps its data: what a forger
+        # sends); with stored hashes in the bag (seqno % 3 == 0) the altered cells carry the honest cells' stored values
+        which = mut['a'] % 2
+        X, label = mutate(roots[which].refs[0], mut['m'])
+        if X is None or X.H(0) == roots[which].refs[0].H(0):
+            return None                                      # not applicable / kept the commitment: not judged
+        roots[which] = rc.RCell(roots[which].bits, [X], True)
+    elif kind == 'proof-root-hash-flip':                     # a bit of the hash stored in one of the two proof cells
+        which = mut['a'] % 2
+        roots[which] = rc.RCell(flip(roots[which].bits, 8 + (mut['a'] // 2) % 256), roots[which].refs, True)
     elif kind == 'one-root':
         roots = roots[:1]
     elif kind == 'three-roots':
@@ -915,12 +970,15 @@ def check_account(case):
         roots = roots[::-1]
     else:
         raise HarnessError(kind)
-    boc = refboc.encode(roots, has_crc=bool(case.get('crc', True)), has_idx=bool(case.get('idx', False)))
+    order_m = rc.topo(roots)
+    if extra_cell is not None:
+        at = 0 if extra_cell[1] == 'first' else 1 + next(i for i, c in enumerate(order_m) if c.repr_hash() == roots[mut['a'] % 2].repr_hash())
+        order_m = order_m[:at] + [extra_cell[0]] + order_m[at:]
+    boc = refboc.encode(roots, has_crc=bool(case.get('crc', True)), has_idx=bool(case.get('idx', False)), order=order_m)
     if case['seqno'] % 3 == 0:
         # the bag stores hashes and depths with every cell. Honest proof: the genuine ones. Forged proof: the values the HONEST
         # proof's cells have at the same positions (what a forger would copy) - stored values are never what is checked
         honest_roots = [rc.merkle_proof(Bp), rc.merkle_proof(Sp)]
-        order_m = rc.topo(roots)
         order_h = rc.topo(honest_roots)
         donors = {i: order_h[i] for i in range(min(len(order_m), len(order_h)))} if not honest else {}
         boc = refboc.encode(roots, has_crc=bool(case.get('crc', True)), has_idx=bool(case.get('idx', False)),
@@ -947,7 +1005,8 @@ def check_account(case):
 
 
 ACC_MUTS = ['claimed-partly-pruned', 'claimed-partly-pruned', 'path-pruned-claim-empty', 'path-pruned-claim-empty', 'path-pruned-claim-none', 'claimed-pruned', 'claimed-pruned', 'claimed-raw-pruned', 'claimed-other-account', 'claimed-bitflip', 'claimed-child-changed',
-            'other-address', 'other-block-hash', 'other-state', 'forged-header', 'forged-header', 'one-root', 'three-roots', 'swapped-roots']
+            'other-address', 'other-block-hash', 'other-state', 'forged-header', 'forged-header', 'one-root', 'three-roots', 'swapped-roots',
+            'proof-root-ordinary', 'proof-root-ordinary', 'proof-root-hash-flip']
 
 
 @st.composite
@@ -972,7 +1031,9 @@ def _acc_case(draw):
                      'bits': draw(st.integers(0, 2 ** 30)), 'last_paid': draw(st.integers(0, 2 ** 32 - 1)),
                      'extra': draw(st.one_of(st.just([]), st.just([]), st.lists(st.tuples(st.integers(0, 2 ** 32 - 1), st.integers(1, 2 ** 64)).map(list),
                                                                                   min_size=1, max_size=2, unique_by=lambda t: t[0])))})
-    mut = draw(st.one_of(st.none(), st.fixed_dictionaries({'kind': st.sampled_from(ACC_MUTS), 'a': st.integers(0, 255)})))
+    mut = draw(st.one_of(st.none(), st.none(), st.fixed_dictionaries({'kind': st.sampled_from(ACC_MUTS), 'a': st.integers(0, 255)}),
+                         st.fixed_dictionaries({'kind': st.sampled_from(ACC_MUTS), 'a': st.integers(0, 255)}),
+                         st.fixed_dictionaries({'kind': st.just('proof-cell-mutation'), 'a': st.integers(0, 255), 'm': st_body_mut()})))
     return {'accounts': accs, 'target': draw(st.integers(0, 5)), 'wc': draw(st.sampled_from([0, -1, 0, 5, -128, 127])),
             'global_id': draw(st.sampled_from([-239, -3, 0, 2 ** 31 - 1])), 'seqno': draw(st.integers(1, 2 ** 31 - 1)),
             'utime': draw(st.integers(0, 2 ** 32 - 1)), 'gen_lt': draw(st.integers(0, 2 ** 64 - 1)),
@@ -986,6 +1047,9 @@ def strat_account(tier):
 
 def classify_account(case):
     yield 'honest' if case.get('mut') is None else 'mutant:' + case['mut']['kind']
+    if case.get('mut') and case['mut']['kind'] == 'proof-cell-mutation':
+        yield f'proof-cell-mutation: {"block" if case["mut"]["a"] % 2 == 0 else "state"} proof, {case["mut"]["m"]["kind"]}' + (
+            ', bag stores (the honest) hashes' if case['seqno'] % 3 == 0 else '')
     yield f'accounts={len(case["accounts"])}'
     yield 'account-in-proof=' + case['acc_in_proof']
     t = case['accounts'][case['target'] % len(case['accounts'])]
@@ -1011,3 +1075,8 @@ SUBCHECKS = [
     Sub('account-proof', check_account, strategy=strat_account, classify=classify_account, nontrivial=nt_any,
         n=(1500, 40000), shards=(16, 48), note='check_account_proof on hand-encoded shard states'),
 ]
+
+
+# the same generated cases, several at a time, checked by threads that run at the same time (core.run_overlapping): per-call state
+# kept in a place two calls share shows only there
+SUBCHECKS.append(__import__('harness.core', fromlist=['overlapped']).overlapped(next(s for s in SUBCHECKS if s.name == 'generic-proof'), k=3, n=(40, 1500)))
